@@ -83,6 +83,7 @@ class Broker:
         self._holdings_quantity[base_currency] = deposit
         self._initial_deposit = deposit
         self._last_accrual: Union[datetime, None] = None
+        self._unreported_interest = 0.
         self._last_marking_to_market_price = dict()
         self.track_record = TrackRecord()
         
@@ -111,13 +112,17 @@ class Broker:
         calculating the trades and execution the trades makes it easier to
         test the code.
         """
-        rebalancing.profit_on_idle_cash = self.accrued_interest(rebalancing.time, True)
+        # Interest credited by earlier requests that were then refused (and so
+        # never recorded) is reported together with the interest of this one.
+        self._unreported_interest += self.accrued_interest(rebalancing.time, True)
+        rebalancing.profit_on_idle_cash = self._unreported_interest
         rebalancing.context_pre = self.context()
         rebalancing.trades = rebalancing.make_trades(self)
         for trade in rebalancing.trades:
             self.transact(trade)
         rebalancing.context_post = self.context()
         self.track_record._checkpoint(rebalancing)
+        self._unreported_interest = 0.
 
     def transact(self, trade: Trade):
         """
